@@ -65,6 +65,7 @@ type FamilyDecl struct {
 	Value   string   // Go type expr as written: "types.Pool", "uint64", "string", "bytes", "unit"
 	Enc     string   // "proto", "be64", "str", "raw", "unit", "protoU64", "protoStr"...
 	Prefix  []string // partial key functions producing prefixes of this family (for iterators)
+	Slices  map[string]int // "9:" -> index of the key argument obtained by slicing a full key
 	Line    int
 }
 
@@ -190,6 +191,17 @@ func ParseSpecFile(path string) (*SpecFile, error) {
 					fd.Enc = fs[i+1]
 				case "prefix":
 					fd.Prefix = strings.Split(fs[i+1], ",")
+				case "slice":
+					if fd.Slices == nil {
+						fd.Slices = map[string]int{}
+					}
+					for _, sp := range strings.Split(fs[i+1], ",") {
+						kv := strings.SplitN(sp, "=", 2)
+						if len(kv) == 2 {
+							n, _ := strconv.Atoi(kv[1])
+							fd.Slices[kv[0]] = n
+						}
+					}
 				default:
 					return nil, perr(fmt.Errorf("unknown family attribute %s", fs[i]))
 				}
